@@ -83,12 +83,14 @@ func (p *tlsConfigPool) LoadTLSConfig(config TLSConfig) (*tls.Config, error) {
 	encConfig := encodeConfig(config)
 	id := encConfig.hash()
 
+	// The lock is held from the lookup to the insertion: two concurrent first loads of equal settings must end
+	// up sharing one configuration, and a CA reload (updateCA) arriving while the configuration is being built
+	// must find it once it can take the lock.
 	p.mu.Lock()
+	defer p.mu.Unlock()
 	if tlsConfig, ok := p.configs[id]; ok {
-		p.mu.Unlock()
 		return tlsConfig, nil
 	}
-	p.mu.Unlock()
 
 	log := p.log.With("id", id)
 	log.Info("loading new TLS config", "config", encConfig.JSON())
@@ -134,9 +136,7 @@ func (p *tlsConfigPool) LoadTLSConfig(config TLSConfig) (*tls.Config, error) {
 	}
 
 	// Save the TLS config to the pool
-	p.mu.Lock()
 	p.configs[id] = tlsConfig
-	p.mu.Unlock()
 	return tlsConfig, nil
 }
 
